@@ -978,3 +978,108 @@ Proof.
   - rewrite (targets_leaves path a), (targets_leaves path b), H. reflexivity.
   - rewrite (extract_keys_leaves rep path a), (extract_keys_leaves rep path b), H. reflexivity.
 Qed.
+
+(** * 6. The length guard of [stitch] (executor.go:385-387) and what a successful stitch is *)
+Theorem stitch_length_guard : forall run path cur ks rs,
+  extract_keys true path (JArr cur) = Some ks -> run (Some ks) = Some rs ->
+  List.length rs <> List.length ks -> stitch true run false path cur = None.
+Proof.
+  intros run path cur ks rs Hk Hr Hl. unfold stitch. rewrite Hk, Hr.
+  apply Nat.eqb_neq in Hl. rewrite Hl. reflexivity.
+Qed.
+
+Theorem stitch_spec : forall run path cur cur',
+  stitch true run false path cur = Some cur' ->
+  exists ks rs,
+    extract_keys true path (JArr cur) = Some ks /\ run (Some ks) = Some rs /\
+    List.length rs = List.length ks /\
+    map fed_key (targets path (JArr cur)) = map Some ks /\
+    merge_each (targets path (JArr cur)) rs = Some (targets path (JArr cur'), []) /\
+    skeleton path (JArr cur') = skeleton path (JArr cur).
+Proof.
+  intros run path cur cur' H. unfold stitch in H.
+  destruct (extract_keys true path (JArr cur)) as [ks|] eqn:Hk; [|discriminate].
+  destruct (run (Some ks)) as [rs|] eqn:Hr; [|discriminate].
+  destruct (negb (Nat.eqb (List.length rs) (List.length ks))) eqn:Hl; [discriminate|].
+  apply negb_false_iff, Nat.eqb_eq in Hl.
+  destruct (graft path (JArr cur) rs) as [[n' rest]|] eqn:Hg; [|discriminate].
+  destruct n'; try discriminate. destruct rest; [|discriminate]. inversion H; subst.
+  exists ks, rs. destruct (extract_keys_targets _ _ _ Hk) as [_ [Hm _]].
+  destruct (graft_some_merge_each _ _ _ _ _ Hg) as [_ He].
+  repeat split; auto. eapply graft_skeleton; eauto.
+Qed.
+
+(** with as many results as keys a stitch fails only because some result is not an object or clashes with its
+    own target *)
+Theorem stitch_fails_iff : forall run path cur ks rs,
+  extract_keys true path (JArr cur) = Some ks -> run (Some ks) = Some rs ->
+  List.length rs = List.length ks ->
+  (stitch true run false path cur = None <->
+   exists i t r, nth_error (targets path (JArr cur)) i = Some t /\ nth_error rs i = Some r /\ merge_pair t r = None).
+Proof.
+  intros run path cur ks rs Hk Hr Hl. rewrite <- (graft_fails_iff _ _ _ _ Hk Hl).
+  unfold stitch. rewrite Hk, Hr, Hl, Nat.eqb_refl. simpl.
+  destruct (graft path (JArr cur) rs) as [[n' rest]|] eqn:Hg; [|tauto].
+  destruct (positional_matching _ _ _ _ _ _ Hk Hl Hg) as [-> _].
+  destruct (graft_kind _ _ _ _ _ Hg) as [l' ->]. split; discriminate.
+Qed.
+
+(** * Examples (non-vacuity) *)
+Definition xo (id : Z) (extra : list (string * json)) : json :=
+  JObj ([("id", JNum id); (federation_field, JObj [("id", JNum id)])] ++ extra).
+Definition xr (v : Z) : json := JObj [("x", JNum v)].
+Definition xk (id : Z) : json := JObj [("id", JNum id)].
+
+(** duplicate keys: the same object twice in a list, and once more under another parent; three results, all
+    different; each copy gets the result at its own position *)
+Definition dup_tree : json :=
+  JArr [JObj [("items", JArr [xo 1 []; xo 1 []])]; JObj [("items", JArr [xo 1 []])]].
+
+Example duplicate_keys_by_position :
+  extract_keys true [SField "items"] dup_tree = Some [xk 1; xk 1; xk 1] /\
+  graft [SField "items"] dup_tree [xr 10; xr 20; xr 30] =
+    Some (JArr [JObj [("items", JArr [xo 1 [("x", JNum 10%Z)]; xo 1 [("x", JNum 20%Z)]])];
+                JObj [("items", JArr [xo 1 [("x", JNum 30%Z)]])]], []).
+Proof. vm_compute. split; reflexivity. Qed.
+
+(** nulls and arrays of arrays: [[o1, null], [], [o2, [o3]]] *)
+Definition nest_tree : json :=
+  JObj [("f", JArr [JArr [xo 1 []; JNull]; JArr []; JArr [xo 2 []; JArr [xo 3 []]]])].
+
+Example nested_lists_and_nulls :
+  targets [SField "f"] nest_tree = [xo 1 []; xo 2 []; xo 3 []] /\
+  extract_keys true [SField "f"] nest_tree = Some [xk 1; xk 2; xk 3] /\
+  graft [SField "f"] nest_tree [xr 10; xr 20; xr 30] =
+    Some (JObj [("f", JArr [JArr [xo 1 [("x", JNum 10%Z)]; JNull]; JArr [];
+                            JArr [xo 2 [("x", JNum 20%Z)]; JArr [xo 3 [("x", JNum 30%Z)]]]])], []) /\
+  strip_nulls [SField "f"] nest_tree =
+    JObj [("f", JArr [JArr [xo 1 []]; JArr []; JArr [xo 2 []; JArr [xo 3 []]]])] /\
+  skeleton [SField "f"] nest_tree =
+    JObj [("f", JArr [JArr [JObj []; JNull]; JArr []; JArr [JObj []; JArr [JObj []]]])] /\
+  extract_keys false [SField "f"] nest_tree = None.
+Proof. vm_compute. repeat split; reflexivity. Qed.
+
+(** a type step: the object of the other union member is no target, takes no result and stays as it is *)
+Definition union_tree : json :=
+  JArr [JObj [("u", JArr [xo 1 [("__typename", JStr "A")]; xo 2 [("__typename", JStr "B")]; JNull;
+                           xo 3 [("__typename", JStr "A")]])]].
+
+Example union_members_skipped :
+  extract_keys true [SField "u"; SType "A"] union_tree = Some [xk 1; xk 3] /\
+  graft [SField "u"; SType "A"] union_tree [xr 10; xr 30] =
+    Some (JArr [JObj [("u", JArr [xo 1 [("__typename", JStr "A"); ("x", JNum 10%Z)];
+                                  xo 2 [("__typename", JStr "B")]; JNull;
+                                  xo 3 [("__typename", JStr "A"); ("x", JNum 30%Z)]])]], []).
+Proof. vm_compute. split; reflexivity. Qed.
+
+(** the guard and the failure cases: one result too few / too many; a result that is not an object; a result
+    that clashes with its target *)
+Example stitch_guard_examples :
+  let cur := [JObj [("items", JArr [xo 1 []; xo 2 []])]] in
+  stitch true (fun _ => Some [xr 10]) false [SField "items"] cur = None /\
+  stitch true (fun _ => Some [xr 10; xr 20; xr 30]) false [SField "items"] cur = None /\
+  stitch true (fun _ => Some [xr 10; JNum 5%Z]) false [SField "items"] cur = None /\
+  stitch true (fun _ => Some [xr 10; JObj [("id", JNum 2%Z)]]) false [SField "items"] cur = None /\
+  stitch true (fun _ => Some [xr 10; xr 20]) false [SField "items"] cur =
+    Some [JObj [("items", JArr [xo 1 [("x", JNum 10%Z)]; xo 2 [("x", JNum 20%Z)]])]].
+Proof. vm_compute. repeat split; reflexivity. Qed.
